@@ -52,9 +52,10 @@ class BanditConfig:
 
                 try:
                     with f:
-                        self._config = (
-                            tomllib.load(f).get("tool", {}).get("bandit", {})
-                        )
+                        self._config = tomllib.load(f).get("tool", {})
+                        if isinstance(self._config, dict):
+                            # "tool = 1" is left for the dict check below
+                            self._config = self._config.get("bandit", {})
                 except tomllib.TOMLDecodeError as err:
                     LOG.error(err)
                     raise utils.ConfigError("Error parsing file.", config_file)
@@ -66,11 +67,12 @@ class BanditConfig:
                     LOG.error(err)
                     raise utils.ConfigError("Error parsing file.", config_file)
 
-            self.validate(config_file)
-
-            # valid config must be a dict
+            # valid config must be a dict (an empty file loads as None, a
+            # scalar document as a str/int: validate() cannot look into those)
             if not isinstance(self._config, dict):
                 raise utils.ConfigError("Error parsing file.", config_file)
+
+            self.validate(config_file)
 
             self.convert_legacy_config()
 
